@@ -342,11 +342,14 @@ func followDebugger(progs []string, visits [][]dbgVisit, steps []dbgStep, strict
 			rig.dbg.StopThreads(0)
 			killing = true
 			st = stable()
-		case "SetBreak", "RmBreak":
+		case "SetBreak", "RmBreak", "DisableBreak":
 			l, _ := strconv.Atoi(step.Arg)
 			if step.A == "SetBreak" {
 				rig.dbg.SetBreakPoint("prog", l)
 				bp[l] = true
+			} else if step.A == "DisableBreak" {
+				rig.dbg.DisableBreakPoint("prog", l)
+				delete(bp, l)
 			} else {
 				rig.dbg.RemoveBreakPoint("prog", l)
 				delete(bp, l)
@@ -537,6 +540,9 @@ func runObserved(src string, debug bool, rng *rand.Rand, bps []int, events int) 
 							if running, has := t["threadRunning"].(bool); has && !running {
 								dbg.HandleInput("cont " + id + " " + types[crng.Intn(len(types))])
 								atomic.AddInt64(&conts, 1)
+							} else if has && crng.Intn(4) == 0 {
+								// an impatient client: a command for a thread which still runs (it is ignored)
+								dbg.HandleInput("cont " + id + " " + types[crng.Intn(len(types))])
 							}
 						}
 					}
